@@ -2990,6 +2990,7 @@ template <typename T>
         report_missed("Unfulfilled expectation");
       }
       this->unlink();
+      sequences.reset(); // leave the sequences while the lock is held
       TROMPELOEIL_VERIF_EVENT("exp_dtor", this, 1);
     }
 
